@@ -556,3 +556,50 @@ PROPS.update({
         explanation='Known findings: Self / raw keywords / "_" non-terminal / blank terminal produce invalid Rust.',
     ),
 })
+
+PROPS.update({
+    'C19': dict(
+        level='proof',
+        level_text='Rocq theorems about the faithful parser models. LL(k): for tables that pass tables_ok and the boolean no-left-recursion '
+                   'certificate check rank_ok, for EVERY recovery oracle, recovery on or off, every option set and every token list some fuel '
+                   'makes the run end with a result (C19_ll_terminates_any_oracle: lexicographic measure over error budget, unconsumed '
+                   'tokens, weighted nullable stack prefix and end markers), more fuel never changes it (C19_ll_terminates), at most 100 error '
+                   'entries are collected (C19_recovery_entries_bounded) and no index/unwrap site is reachable (C19_ll_no_panic). LR: for a table '
+                   'that passes the safety validator, with the grammar certified acyclic and the stack-rank certificate, the run with the '
+                   'explicit fuel lr_fuel_bound ends with a result (C19_lr_terminates), and no panic/internal-error site is reachable. Tie to '
+                   'the code: every REAL generated table must pass the certificate checks; the real LLKParser (recovery on and off) and '
+                   'LRParser run under a watchdog on random bytes rendered as text, letter soup, comment fragments, heavily mutated and '
+                   '100-400 token inputs; panic, hang, >101 error entries or a verdict different from the model is a violation.',
+        level_note='The certificates are hypotheses of the theorems, evaluated per table (C19_lr_terminates_refuted and the left-recursive '
+                   'Example show they are needed). Cyclic LALR grammars have no certificate and the real LR parser does loop on them: known '
+                   'finding D15. Stack overflow of the Rust process on deep recursion and memory exhaustion are outside the model.',
+        technique='Rocq proof (termination measures for the LL push-down automaton with recovery and for the LR automaton via tree-size bounds; certificate checkers) + watchdog run of the real parsers on arbitrary text',
+        streams=[dict(cmd='c19', quick=640, thorough=12000)],
+        rule='alternately LL(k) tables (BNF as C01, EBNF with repetitions) and LALR(1) tables (as C03, 1/4 with resolved conflicts); per '
+             'table: sentences, 2-8 edit mutants (some repeated up to 6 times), commented mutants, and random texts in four styles '
+             '(arbitrary bytes, letter soup, grammar terminals with junk and comment fragments, one token repeated up to 400 times); LL: each '
+             'text with recovery on and off; non-trivial = a table with an accepted and a rejected run; distinct = distinct case text',
+        explanation='C19_ll_terminates_any_oracle, C19_recovery_entries_bounded, C19_ll_no_panic, C19_lr_terminates, C19_lr_no_panic.',
+    ),
+    'C21': dict(
+        level='other',
+        level_text='Translation validation of the REAL generator output on every run: the tables are read back from the generated parser '
+                   'source text (syn: TERMINAL_NAMES, scanner! modes via scnr2\'s own macro front end, MAX_K, skip lists, NON_TERMINALS, '
+                   'LOOKAHEAD_AUTOMATA, PRODUCTIONS incl. is_push_production, PARSE_TABLE, start index) and from the JSON the real `parol '
+                   'export` tool writes; they must agree field by field and all indices must be in range; then the SOURCE tables go through '
+                   'the proved checkers: tables_ok (=> no index panic for any input, C21_ll_no_panic), la_dfa_check against the lookahead '
+                   'sets of the verified FIRST_k/FOLLOW_k reference for the transformed grammar (=> the automaton predicts exactly by those '
+                   'sets, C21_la_dfa_check_sound), lr_validate (=> only sentences accepted, no panic, C21_lr_safe_check_sound).',
+        level_note='Rocq proves what a passed check means for all inputs of the generated parser; that the generator passes the check on '
+                   'every grammar is tested, not proved (no Gallina model of the renderer). Regex patterns of comment tokens are compared by '
+                   'presence only; lookahead patterns by sign.',
+        technique='translation validation of generated source text and export JSON with Rocq-proved table checkers',
+        needs_parol_bin=True,
+        streams=[dict(cmd='c21', quick=480, thorough=12000, extra=[f for f in _PAR_FILES if '/tests/data/' not in f or 'arg_tests' in f])],
+        rule='repository grammars (< 5 KB quick / < 12 KB thorough) plus generated ones: random EBNF (LL and LALR), LL(1)-by-construction '
+             'EBNF with repetitions/optionals, BNF shapes of C01/C03, grammars with scanner states, %on/%enter/%push/%pop transitions, '
+             'lookahead terminals, comments and %allow_unmatched (as C13), each LL and LALR; K in 1..4; non-trivial = source and export '
+             'were both produced and compared; distinct = distinct case text',
+        explanation='source == export (field by field) and source tables pass tables_ok / la_dfa_check / lr_validate.',
+    ),
+})
